@@ -46,14 +46,15 @@ theorem required_unset_rejected (tw : Ty → GVal → Res WValue) (en : Ty → G
     encodeFields en (f :: fs) (.nil :: gs) = .error .bad :=
   ThriftVerif.Schema.required_unset_rejected tw en f fs gs hr hp hl
 
-/-- … union without exactly one member … -/
+/-- … union (with at least one declared field — the generated check is omitted for an empty
+union) without exactly one member … -/
 theorem union_arity_rejected (env : Env) (hwf : WFEnv env) (fuel : Nat) (n : String) (sd : StructDef)
     (gs : List GVal) (ws : List (UInt16 × WValue)) (hfind : env.find n = some sd)
-    (hk : sd.kind.arity = some true) (hws : toWireFields (toWire env fuel) sd.fields gs = .ok ws)
-    (hne : ws.length ≠ 1) :
+    (hk : sd.kind.arity = some true) (hnonempty : sd.fields.isEmpty = false)
+    (hws : toWireFields (toWire env fuel) sd.fields gs = .ok ws) (hne : ws.length ≠ 1) :
     toWire env (fuel + 1) (.struct n) (.struct gs) = .error .bad ∧
     encodeS env (fuel + 1) (.struct n) (.struct gs) = .error .bad :=
-  ThriftVerif.Schema.union_arity_rejected env hwf fuel n sd gs ws hfind hk hws hne
+  ThriftVerif.Schema.union_arity_rejected env hwf fuel n sd gs ws hfind hk hnonempty hws hne
 
 /-- … nil element inside a container of reference-typed elements (both serialisers). -/
 theorem nil_element_rejected (env : Env) (hwf : WFEnv env) (fuel : Nat) (e : Ty) (xs : List GVal)
